@@ -79,29 +79,85 @@ fn res_str(r: &CommandResult) -> String {
     }
 }
 
+#[derive(Default)]
+struct Flags {
+    max_depth: usize,
+    copy_at_depth2: bool,
+    failed_pop_then_more: bool,
+}
+
+type World = (Context, HashMap<String, String>, Vec<HashMap<String, String>>);
+
 fn case(t: &mut Tape, st: &mut Stats, max_len: usize) -> Verdict {
     let n = 1 + t.len(max_len - 1);
     let ops: Vec<Op> = (0..n).map(|_| gen_op(t)).collect();
+    // one history in six is continued on a CLONE of the context taken at some step (after the original went on):
+    // the clone is a context of its own, with the variables and the stack of saved maps of that moment
+    let fork = if t.chance(1, 6) {
+        let at = t.below(n);
+        let k = 1 + t.len(6);
+        let tail: Vec<Op> = (0..k).map(|_| if t.chance(2, 3) { Op::Pop(if t.flip() { Some(names(t, 3)) } else { None }) } else { gen_op(t) }).collect();
+        Some((at, tail))
+    } else {
+        None
+    };
+    run_history(&ops, st, fork)
+}
+
+fn run_history(ops: &[Op], st: &mut Stats, fork: Option<(usize, Vec<Op>)>) -> Verdict {
     let mut ctx = sdk_context();
     let mut m: HashMap<String, String> = HashMap::new();
     let mut stack: Vec<HashMap<String, String>> = vec![];
-    let mut max_depth = 0;
-    let mut copy_at_depth2 = false;
-    let mut failed_pop_then_more = false;
-    let mut had_failed_pop = false;
-    duckscript::runner::verif_fuel::set(50_000);
+    let mut flags = Flags::default();
+    let mut forked: Option<World> = None;
+    duckscript::runner::verif_fuel::set(50_000 + 200 * ops.len() as u64);
     duckscript::runner::verif_fuel::set_depth_limit(NEST_LIMIT);
+    let v = run_ops(&mut ctx, &mut m, &mut stack, ops, st, &[], fork.as_ref().map(|f| f.0), &mut forked, &mut flags);
+    if !matches!(v, Verdict::Pass(None)) {
+        return v;
+    }
+    if let (Some((at, tail)), Some((mut c2, mut m2, mut s2))) = (fork, forked) {
+        if !s2.is_empty() {
+            st.class("history-continued-on-a-clone-with-open-pushes");
+        }
+        let prefix: Vec<String> = ops.iter().take(at + 1).map(|o| format!("{:?}", o)).chain(std::iter::once(format!("-- the original context went on for {} more steps; what follows runs on the clone taken here --", ops.len() - at - 1))).collect();
+        let mut f2 = Flags::default();
+        let v = run_ops(&mut c2, &mut m2, &mut s2, &tail, st, &prefix, None, &mut None, &mut f2);
+        if !matches!(v, Verdict::Pass(None)) {
+            return v;
+        }
+    }
+    duckscript::runner::verif_fuel::set(u64::MAX);
+    duckscript::runner::verif_fuel::set_depth_limit(usize::MAX);
+    if flags.max_depth >= 2 {
+        st.class("push-depth-2");
+    }
+    if flags.max_depth > 256 {
+        st.class("push-depth-over-256");
+    }
+    let nt = (flags.max_depth >= 2 && flags.copy_at_depth2) || flags.failed_pop_then_more;
+    if st.want_sample() && nt && ops.len() < 60 {
+        let o = ops.to_vec();
+        st.sample(|| json!({"history": o.iter().map(|x| format!("{:?}", x)).collect::<Vec<_>>()}));
+    }
+    Verdict::Pass(if nt { Some(fp(&format!("{:?}", ops))) } else { None })
+}
+
+/// runs `ops` on a world and its model; Pass(None) = every step agreed
+#[allow(clippy::too_many_arguments)]
+fn run_ops(ctx: &mut Context, m: &mut HashMap<String, String>, stack: &mut Vec<HashMap<String, String>>, ops: &[Op], st: &mut Stats, prefix: &[String], fork_at: Option<usize>, forked: &mut Option<World>, flags: &mut Flags) -> Verdict {
+    let mut had_failed_pop = false;
     for (step, op) in ops.iter().enumerate() {
         if had_failed_pop {
-            failed_pop_then_more = true;
+            flags.failed_pop_then_more = true;
         }
         let mut unconstrained: Vec<String> = vec![];
-        let describe = |what: &str, extra: serde_json::Value| json!({"history": ops.iter().take(step + 1).map(|o| format!("{:?}", o)).collect::<Vec<_>>(), "failing_step": step, "mismatch": what, "detail": extra});
+        let describe = |what: &str, extra: serde_json::Value| json!({"history": prefix.iter().cloned().chain(ops.iter().take(step + 1).map(|o| format!("{:?}", o))).collect::<Vec<_>>(), "failing_step": prefix.len() + step, "mismatch": what, "detail": extra});
         let opname = format!("{:?}", op).split(|c| c == '(' || c == ' ').next().unwrap_or("op").to_string();
         // expected output
         let (r, want): (CommandResult, String) = match op {
             Op::Set(k, v) => {
-                let r = exec(&mut ctx, "set", vec![v.clone()]);
+                let r = exec(ctx, "set", vec![v.clone()]);
                 // what the runner does with the output variable
                 if let CommandResult::Continue(o) = &r {
                     match o {
@@ -117,7 +173,7 @@ fn case(t: &mut Tape, st: &mut Stats, max_len: usize) -> Verdict {
                 (r, format!("Continue({:?})", Some(v.clone())))
             }
             Op::Unset(ks) => {
-                let r = exec(&mut ctx, "unset", ks.clone());
+                let r = exec(ctx, "unset", ks.clone());
                 for k in ks {
                     m.remove(k);
                 }
@@ -128,7 +184,7 @@ fn case(t: &mut Tape, st: &mut Stats, max_len: usize) -> Verdict {
                 if let Some(v) = v {
                     a.push(v.clone());
                 }
-                let r = exec(&mut ctx, "set_by_name", a);
+                let r = exec(ctx, "set_by_name", a);
                 match v {
                     Some(v) => {
                         m.insert(k.clone(), v.clone());
@@ -139,11 +195,11 @@ fn case(t: &mut Tape, st: &mut Stats, max_len: usize) -> Verdict {
                 }
                 (r, format!("Continue({:?})", v))
             }
-            Op::GetByName(k) => (exec(&mut ctx, "get_by_name", vec![k.clone()]), format!("Continue({:?})", m.get(k))),
-            Op::IsDefined(k) => (exec(&mut ctx, "is_defined", vec![k.clone()]), format!("Continue({:?})", Some(m.contains_key(k).to_string()))),
+            Op::GetByName(k) => (exec(ctx, "get_by_name", vec![k.clone()]), format!("Continue({:?})", m.get(k))),
+            Op::IsDefined(k) => (exec(ctx, "is_defined", vec![k.clone()]), format!("Continue({:?})", Some(m.contains_key(k).to_string()))),
             Op::GetAllVarNames(out) => {
                 let r = match out {
-                    None => exec(&mut ctx, "get_all_var_names", vec![]),
+                    None => exec(ctx, "get_all_var_names", vec![]),
                     Some(o) => {
                         if m.contains_key(o) {
                             st.class("listing-assigned-to-a-variable-that-is-already-defined");
@@ -160,17 +216,17 @@ fn case(t: &mut Tape, st: &mut Stats, max_len: usize) -> Verdict {
                     CommandResult::Continue(Some(h)) => h.clone(),
                     other => return fail("C11/get_all_var_names/output", describe("no handle returned", json!(res_str(other)))),
                 };
-                let len = match exec(&mut ctx, "array_length", vec![h.clone()]) {
+                let len = match exec(ctx, "array_length", vec![h.clone()]) {
                     CommandResult::Continue(Some(l)) => l.parse::<usize>().unwrap_or(usize::MAX),
                     other => return fail("C11/get_all_var_names/output", describe("handle is not an array", json!(res_str(&other)))),
                 };
                 let mut got = BTreeSet::new();
                 for i in 0..len.min(1000) {
-                    if let CommandResult::Continue(Some(v)) = exec(&mut ctx, "array_get", vec![h.clone(), i.to_string()]) {
+                    if let CommandResult::Continue(Some(v)) = exec(ctx, "array_get", vec![h.clone(), i.to_string()]) {
                         got.insert(v);
                     }
                 }
-                let _ = exec(&mut ctx, "release", vec![h.clone()]);
+                let _ = exec(ctx, "release", vec![h.clone()]);
                 let want: BTreeSet<String> = m.keys().cloned().collect();
                 if got != want || len != want.len() {
                     return fail("C11/get_all_var_names/output", describe("names differ", json!({"model": want, "actual": got, "length": len})));
@@ -187,7 +243,7 @@ fn case(t: &mut Tape, st: &mut Stats, max_len: usize) -> Verdict {
                     Some(p) => vec!["--prefix".to_string(), p.clone()],
                     None => vec![],
                 };
-                let r = exec(&mut ctx, "unset_all_vars", a);
+                let r = exec(ctx, "unset_all_vars", a);
                 match p {
                     Some(p) => m.retain(|k, _| !k.starts_with(p.as_str())),
                     None => m.clear(),
@@ -195,7 +251,7 @@ fn case(t: &mut Tape, st: &mut Stats, max_len: usize) -> Verdict {
                 (r, "Continue(None)".to_string())
             }
             Op::ClearScope(s) => {
-                let r = exec(&mut ctx, "clear_scope", vec![s.clone()]);
+                let r = exec(ctx, "clear_scope", vec![s.clone()]);
                 let pre = format!("{}::", s);
                 m.retain(|k, _| !k.starts_with(&pre));
                 (r, "Continue(None)".to_string())
@@ -206,7 +262,7 @@ fn case(t: &mut Tape, st: &mut Stats, max_len: usize) -> Verdict {
                     a.push("--copy".to_string());
                     a.extend(c.iter().cloned());
                 }
-                let r = exec(&mut ctx, "scope_push_stack", a);
+                let r = exec(ctx, "scope_push_stack", a);
                 stack.push(m.clone());
                 let mut nm = HashMap::new();
                 if let Some(c) = copy {
@@ -216,11 +272,11 @@ fn case(t: &mut Tape, st: &mut Stats, max_len: usize) -> Verdict {
                         }
                     }
                     if stack.len() >= 2 {
-                        copy_at_depth2 = true;
+                        flags.copy_at_depth2 = true;
                     }
                 }
-                m = nm;
-                max_depth = max_depth.max(stack.len());
+                *m = nm;
+                flags.max_depth = flags.max_depth.max(stack.len());
                 (r, format!("Continue({:?})", Some("true")))
             }
             Op::Pop(copy) => {
@@ -229,7 +285,7 @@ fn case(t: &mut Tape, st: &mut Stats, max_len: usize) -> Verdict {
                     a.push("--copy".to_string());
                     a.extend(c.iter().cloned());
                 }
-                let r = exec(&mut ctx, "scope_pop_stack", a);
+                let r = exec(ctx, "scope_pop_stack", a);
                 match stack.pop() {
                     None => {
                         had_failed_pop = true;
@@ -251,10 +307,10 @@ fn case(t: &mut Tape, st: &mut Stats, max_len: usize) -> Verdict {
                                 }
                             }
                             if stack.len() >= 1 {
-                                copy_at_depth2 = true;
+                                flags.copy_at_depth2 = true;
                             }
                         }
-                        m = nm;
+                        *m = nm;
                         (r, format!("Continue({:?})", Some("true")))
                     }
                 }
@@ -280,21 +336,38 @@ fn case(t: &mut Tape, st: &mut Stats, max_len: usize) -> Verdict {
                 }
             }
         }
-        if ctx.variables != m {
+        if ctx.variables != *m {
             return fail(&format!("C11/{}/variables", opname), describe("variable map differs", json!({"model": m, "actual": ctx.variables})));
         }
+            if fork_at == Some(step) {
+            *forked = Some((ctx.clone(), m.clone(), stack.clone()));
+        }
     }
-    duckscript::runner::verif_fuel::set(u64::MAX);
-    duckscript::runner::verif_fuel::set_depth_limit(usize::MAX);
-    if max_depth >= 2 {
-        st.class("push-depth-2");
+    Verdict::Pass(None)
+}
+
+/// (deep-stack) more than 256 pushes open at once, every level marked, then popped last-in-first-out
+fn case_deep(t: &mut Tape, st: &mut Stats) -> Verdict {
+    let depth = 257 + t.below(80);
+    let mut ops = vec![];
+    for i in 0..depth {
+        ops.push(Op::Set("a".to_string(), format!("level{}", i)));
+        if t.chance(1, 4) {
+            ops.push(Op::Set(t.pick(NAMES).to_string(), format!("x{}", i)));
+        }
+        ops.push(Op::Push(match t.below(3) {
+            0 => None,
+            1 => Some(vec!["a".to_string()]),
+            _ => Some(names(t, 3)),
+        }));
     }
-    let nt = (max_depth >= 2 && copy_at_depth2) || failed_pop_then_more;
-    if st.want_sample() && nt {
-        let o = ops.clone();
-        st.sample(|| json!({"history": o.iter().map(|x| format!("{:?}", x)).collect::<Vec<_>>()}));
+    for _ in 0..t.len(4) {
+        ops.push(gen_op(t));
     }
-    Verdict::Pass(if nt { Some(fp(&format!("{:?}", ops))) } else { None })
+    for _ in 0..depth + 1 {
+        ops.push(Op::Pop(if t.chance(1, 4) { Some(names(t, 2)) } else { None }));
+    }
+    run_history(&ops, st, None)
 }
 
 fn case_q(t: &mut Tape, st: &mut Stats) -> Verdict {
@@ -307,7 +380,7 @@ fn case_t(t: &mut Tape, st: &mut Stats) -> Verdict {
 pub fn property() -> Property {
     Property {
         id: "C11",
-        rule: "histories of 1..40 (thorough ..120) operations (set, unset, set_by_name with/without value, get_by_name, is_defined, get_all_var_names (with or without an output variable, which may be defined already), unset_all_vars with/without --prefix, clear_scope, scope_push_stack and scope_pop_stack with/without --copy lists naming defined, undefined and repeated names, pops on an empty stack) over 8 names (prefix-sharing, '::' names, names holding another name's prefix in the middle) and hazard values, each executed as one run_instruction on a persistent SDK context; after EVERY step the command result and the whole variable map are compared with HashMap + Vec<HashMap>. Non-trivial: push depth >= 2 with a --copy, or a failed pop followed by more operations; distinct by history",
+        rule: "histories of 1..40 (thorough ..120) operations (set, unset, set_by_name with/without value, get_by_name, is_defined, get_all_var_names (with or without an output variable, which may be defined already), unset_all_vars with/without --prefix, clear_scope, scope_push_stack and scope_pop_stack with/without --copy lists naming defined, undefined and repeated names, pops on an empty stack) over 8 names (prefix-sharing, '::' names, names holding another name's prefix in the middle) and hazard values, each executed as one run_instruction on a persistent SDK context; after EVERY step the command result and the whole variable map are compared with HashMap + Vec<HashMap>; one history in six is continued (mostly with pops) on a clone of the context taken at an earlier step, after the original went on, against a clone of the model; (deep-stack) 257..336 pushes open at once, each level marked, then popped last-in-first-out plus one pop too many. Non-trivial: push depth >= 2 with a --copy, or a failed pop followed by more operations; distinct by history",
         assumptions: &[
             "values are free of '$', '%' and backslash (binding of such values is C02's subject)",
             "for a name undefined when copied on pop only the absence of a failure and the rest of the map are compared (the model adopts the observed value of that name)",
@@ -321,7 +394,16 @@ pub fn property() -> Property {
                     Tier::Thorough => Plan::Random { cases: 10_000_000, max_len: 500 },
                 },
                 case: case_q,
-                min_classes: &[("pop-on-empty-stack", 2000), ("pop-copy-of-undefined-name", 2000), ("push-depth-2", 2000), ("listing-assigned-to-a-variable-that-is-already-defined", 2000)],
+                min_classes: &[("pop-on-empty-stack", 2000), ("pop-copy-of-undefined-name", 2000), ("push-depth-2", 2000), ("listing-assigned-to-a-variable-that-is-already-defined", 2000), ("history-continued-on-a-clone-with-open-pushes", 5000)],
+            },
+            Section {
+                name: "deep-stack",
+                plan: |t| match t {
+                    Tier::Quick => Plan::Random { cases: 300, max_len: 1500 },
+                    Tier::Thorough => Plan::Random { cases: 6_000, max_len: 1500 },
+                },
+                case: case_deep,
+                min_classes: &[("push-depth-over-256", 200)],
             },
             Section {
                 name: "long-histories",
